@@ -416,6 +416,41 @@ def rule_store(R):
     okp = okp and reached == set(s_.fn_name for s_ in setters)
     R.ob("store/step-accumulates", okp,
          "perform_outbound_step records written_before + count of the write that just completed", where=pb.span)
+    # the flush that ends a packet (and lets its entry be marked sent / dropped) follows a write only when that write
+    # completed the packet: the call is reached from the write only over the `written + count >= len` edge of a
+    # comparison of the accumulated count with the packet's length
+    wcalls = [c for c in pcode.calls.values() if c.bb in pcode.reachable and is_count_call(pcode.call_term(c.bb))]
+    fl = roles.conn_methods(f).get("flush_current")
+    okfl = bool(wcalls) and fl is not None
+    nfl = 0
+    if okfl:
+        fcalls = [c for c in outq.calls_to(f, pcode, fl[0])]
+        done_edges = []
+        for sb in pcode.switches:
+            if sb not in pcode.reachable:
+                continue
+            si = pcode.switch_info(sb)
+            sj = peel(si["subject"])
+            if sj[0] != "bin" or sj[1] not in ("Lt", "Ge", "Gt", "Le", "Eq", "Ne"):
+                continue
+            a, b2 = sj[2], sj[3]
+            ca = any(is_count_call(y) for y in walk(a) if isinstance(y, tuple))
+            cb = any(is_count_call(y) for y in walk(b2) if isinstance(y, tuple))
+            if ca == cb:
+                continue
+            op = sj[1] if ca else {"Lt": "Gt", "Gt": "Lt", "Le": "Ge", "Ge": "Le", "Eq": "Eq", "Ne": "Ne"}[sj[1]]
+            lab = {"Lt": False, "Ge": True, "Eq": True, "Ne": False}.get(op)     # acc < len: complete on false; acc >= len: on true
+            if lab is not None and si["edges"].get(lab) is not None:
+                done_edges.append((sb, si["edges"][lab]))
+        for w in wcalls:
+            after = pcode.reach([w.target]) if w.target is not None else set()
+            for c in fcalls:
+                if c.bb in after:
+                    nfl += 1
+                    okfl = okfl and bool(done_edges) and pcode.must_pass([w.target], [c.bb], via_edges=done_edges)[0]
+    R.ob("store/flush-after-complete-write", okfl and nfl >= 1,
+         "in perform_outbound_step the flush that follows a write is reached only over the edge `written + count >= len` "
+         "(a packet accepted in part is not flushed, marked sent or dropped)", where=pb.span)
     # ... and the length it hands over next to it is a packet length, not a count: the value in the `len` position of the
     # setter never derives from the transport's byte count (two `usize` arguments are easily transposed)
     okl = True
@@ -441,7 +476,16 @@ def rule_shared_sent(R):
     _r(R)
 
 
+def rule_drain(R):
+    """a cancelled operation may leave a queued packet half written; what the next operation sends must not depend on
+    that: every direct transport write of an operation (QoS 0 PUBLISH, DISCONNECT) is preceded by a successful drain of the
+    queues -- C01's rule, evaluated here"""
+    from .c01 import rule_drain as _r
+    _r(R)
+
+
 def run(R):
+    R.rule("drain", rule_drain)
     R.rule("sent", rule_shared_sent)
     R.rule("ping", rule_ping)
     R.rule("progress", rule_progress)
